@@ -78,6 +78,12 @@ fn run_ep(name: &str, input: Vec<u8>) -> Outcome {
     // recorded before this (or any) input ran through the entry point in this process
     let before = entries::probe_answer(entry);
     let r = run_guarded(entry, input);
+    if let Ran::Accepted(d) = &r {
+        // an entry point that checks a clause of the property itself reports the failure in its answer
+        if d.starts_with("VIOLATION") {
+            t3.push(d.clone());
+        }
+    }
     let imp = match r {
         Ran::Accepted(_) | Ran::Rejected => "returns",
         Ran::Panicked => "panic",
